@@ -11,10 +11,12 @@ PROPERTY = "C04"
 LEAN_MODULES = ["Proofs.C04.Broker"]
 DRIVERS = [H.DRIVER]
 RULE = ("broker: for each rejection cause of swap_by_from/swap_by_to/subtract_from_balance (insufficient balance, token not in wallet, price missing "
-        "for from/to token, fee rate out of range, zero price) a state in which exactly that cause fires; bucket = (operation, cause)")
+        "for from/to token, fee rate out of range, zero price) a state in which exactly that cause fires, plus valid swaps; each with the amount "
+        "handed over as Decimal, float or int, with allow_negative_balance off and on, and always with an action-record callback attached "
+        "(a raise while the record is built is a rejection too); bucket = (operation, cause, outcome, argument class, allow_negative)")
 TRUSTED = []
 ASSUMPTIONS = []
-CAUSES = ["negative-amount", "insufficient", "unknown-from", "price-from-missing", "price-to-missing", "fee-range", "fee-negative", "zero-price-to"]
+CAUSES = ["valid", "negative-amount", "insufficient", "unknown-from", "price-from-missing", "price-to-missing", "fee-range", "fee-negative", "zero-price-to"]
 
 
 def gen(rng, cause, kind):
@@ -47,29 +49,51 @@ def gen(rng, cause, kind):
     return wallet, prices, f, t, amt, fee
 
 
-def one(ctx, cause, kind, case, reqs, metas):
+def as_arg(amt, argkind):
+    """the amount as the caller hands it over, and the Decimal `float_param_formatter` (object_to_decimal: Decimal(str(x))
+    for float and int) makes of it — computed here from the property of repr, not by calling the repo's helper"""
+    if argkind == "float":
+        x = float(amt)
+        return x, Decimal(repr(x))
+    if argkind == "int":
+        x = int(amt) - (1 if amt < 0 else 0)
+        return x, Decimal(x)
+    return amt, amt
+
+
+def one(ctx, cause, kind, case, reqs, metas, argkind="dec", allow_neg=False):
     from demeter import TokenInfo
     wallet, prices, f, t, amt, fee = case
+    amt_arg, amt = as_arg(amt, argkind)
     actions = []
-    b, toks = H.mk_broker(wallet, None, actions)
+    b, toks = H.mk_broker(wallet, None, actions, allow_negative=allow_neg)
     for x in (f, t):
         toks.setdefault(x, TokenInfo(name=x, decimal=18))
     before = H.wallet_dump(b)
     err = None
     try:
-        (b.swap_by_from if kind == "from" else b.swap_by_to)(toks[f], toks[t], amt, prices, fee)
+        (b.swap_by_from if kind == "from" else b.swap_by_to)(toks[f], toks[t], amt_arg, prices, fee)
     except Exception as e:  # noqa
         err = H.exc_class(e)
     after = H.wallet_dump(b)
-    rep = {"part": "c04_broker", "wallet": before, "prices": list(prices.items()), "kind": kind, "from": f, "to": t, "amount": amt, "fee_rate": fee, "cause": cause}
-    ctx.case(f"broker:swap_{kind}:{cause}:{err or 'accepted'}", rep)
+    rep = {"part": "c04_broker", "wallet": before, "prices": list(prices.items()), "kind": kind, "from": f, "to": t, "amount": amt, "fee_rate": fee, "cause": cause,
+           "argkind": argkind, "allow_neg": allow_neg}
+    ctx.case(f"broker:swap_{kind}:{cause}:{err or 'accepted'}:{argkind}:{'neg' if allow_neg else 'noneg'}", rep)
     ok = True
     if err is not None and (after != before or actions):
         ok = False
-        ctx.violate(f"broker:swap_by_{kind}:{cause}", f"rejected ({err}) swap left wallet {after} (was {before}), {len(actions)} action(s) logged", rep)
-    reqs.append({"fn": "swapByFrom" if kind == "from" else "swapByTo", "wallet": before, "allow_neg": False, "from": f, "to": t,
+        key = f"broker:swap_by_{kind}:{cause}" if argkind == "dec" and not allow_neg else f"broker:swap_by_{kind}:{cause}:{argkind}-amount:{err}"
+        ctx.violate(key, f"rejected ({err}) swap left wallet {after} (was {before}), {len(actions)} action(s) logged", rep)
+    if err is None and len(actions) != 1:
+        ok = False
+        ctx.violate(f"broker:swap_by_{kind}:accepted-without-one-record", f"accepted swap logged {len(actions)} action records", rep)
+    reqs.append({"fn": "swapByFrom" if kind == "from" else "swapByTo", "wallet": before, "allow_neg": allow_neg, "from": f, "to": t,
                  "amount": amt, "prices": [[k, v] for k, v in prices.items()], "fee_rate": fee})
-    metas.append((err, after, rep))
+    rec = None
+    if err is None and actions:
+        a = actions[0]
+        rec = (Decimal(a.from_amount), Decimal(a.to_amount), Decimal(a.fee))
+    metas.append((err, after, rep, rec))
     return ok
 
 
@@ -80,6 +104,10 @@ def run(ctx: Ctx):
         for kind in ("from", "to"):
             for _ in range(per):
                 one(ctx, cause, kind, gen(ctx.rng, cause, kind), reqs, metas)
+            # the same causes with the amount handed over as float / int and with allow_negative_balance on
+            for argkind, allow_neg in (("float", False), ("float", True), ("int", False), ("dec", True)):
+                for _ in range(max(3, per // 4)):
+                    one(ctx, cause, kind, gen(ctx.rng, cause, kind), reqs, metas, argkind, allow_neg)
     # direct wallet debits
     from demeter import TokenInfo
     for _ in range(ctx.scale(200, 5000)):
@@ -98,11 +126,11 @@ def run(ctx: Ctx):
         if err is not None and after != before:
             ctx.violate("broker:subtract_from_balance:insufficient", f"rejected debit changed the balance {before} -> {after}", rep)
         reqs.append({"fn": "assetSub", "balance": bal, "amount": amt, "allow_neg": False})
-        metas.append((err, after, rep))
+        metas.append((err, after, rep, None))
     ctx.impl_traces += len(reqs)
     if not ctx.driver_ok:
         return
-    for (err, after, rep), ans in zip(metas, driver_json(reqs, exe=H.DRIVER)):
+    for (err, after, rep, rec), ans in zip(metas, driver_json(reqs, exe=H.DRIVER)):
         merr = ans.get("error")
         if (err or None) != (merr or None):
             ctx.disagree(f"outcome: impl {err} vs model {merr}", rep)
@@ -113,6 +141,8 @@ def run(ctx: Ctx):
             continue
         if [(k, Fraction(v)) for k, v in ans["wallet"]] != [(k, Fraction(v)) for k, v in after]:
             ctx.disagree(f"wallet after swap: impl {after} vs model {ans['wallet']}", rep)
+        elif rec is not None and tuple(Fraction(x) for x in rec) != (Fraction(ans["from_amount"]), Fraction(ans["to_amount"]), Fraction(ans["fee"])):
+            ctx.disagree(f"action record of the swap: impl {rec} vs model {ans}", rep)
 
 
 def replay(ctx, case):
@@ -128,12 +158,14 @@ def replay(ctx, case):
     wallet = [(k, Decimal(v)) for k, v in case["wallet"]]
     prices = {k: Decimal(v) for k, v in case["prices"]}
     actions = []
-    b, toks = H.mk_broker(wallet, None, actions)
+    b, toks = H.mk_broker(wallet, None, actions, allow_negative=bool(case.get("allow_neg", False)))
     for x in (case["from"], case["to"]):
         toks.setdefault(x, TokenInfo(name=x, decimal=18))
     before = H.wallet_dump(b)
+    amt = Decimal(case["amount"])
+    amt = {"float": float, "int": int}.get(case.get("argkind", "dec"), lambda x: x)(amt)
     try:
-        (b.swap_by_from if case["kind"] == "from" else b.swap_by_to)(toks[case["from"]], toks[case["to"]], Decimal(case["amount"]), prices, Decimal(case["fee_rate"]))
-        return True
+        (b.swap_by_from if case["kind"] == "from" else b.swap_by_to)(toks[case["from"]], toks[case["to"]], amt, prices, Decimal(case["fee_rate"]))
+        return len(actions) == 1
     except Exception:  # noqa
         return H.wallet_dump(b) == before and not actions
